@@ -194,6 +194,10 @@ TWINS = [
        "every module replaced by ast.unparse of itself: comments gone, all line "
        "numbers and the formatting changed, no token of the program changed",
        [{"glob": "pytato/**/*.py", "transform": "unparse"}]),
+    _t("invert-if-else",
+       "every two-armed if statement of the package written the other way round "
+       "(test negated, arms exchanged)",
+       [{"glob": "pytato/**/*.py", "transform": "invert_if_else"}]),
     _t("reverse-keyword-arguments",
        "the keyword arguments of every call in the package written in reverse order",
        [{"glob": "pytato/**/*.py", "transform": "reverse_keywords"}]),
